@@ -111,6 +111,10 @@ func (m *Modifier) ModifyResponse(res *http.Response) error {
 	// Reset the Content-Encoding since we know that the new body isn't encoded.
 	res.Header.Del("Content-Encoding")
 
+	// A Content-Range of the original response describes the body that is being
+	// replaced.
+	res.Header.Del("Content-Range")
+
 	// If no range request header is present, or it uses a unit other than
 	// bytes, return the body as the response body.
 	ranges, err := parseRange(res.Request.Header.Get("Range"), len(m.body))
@@ -124,6 +128,11 @@ func (m *Modifier) ModifyResponse(res *http.Response) error {
 		return nil
 	}
 	if ranges == nil {
+		// A range status of the original response does not apply to the whole new
+		// body.
+		if res.StatusCode == http.StatusPartialContent || res.StatusCode == http.StatusRequestedRangeNotSatisfiable {
+			res.StatusCode = http.StatusOK
+		}
 		res.ContentLength = int64(len(m.body))
 		res.Body = ioutil.NopCloser(bytes.NewReader(m.body))
 
